@@ -679,6 +679,7 @@ func (w *World) snapshot() []ISnap {
 			w.helpers[curGID()] = true
 			w.mu.Unlock()
 			st := in.el.Status()
+			in.statusStuck = false // a call that was held up (slow callback under the mutex) has returned after all
 			resc <- r{idx, statusView{st.State, st.IsLeader, st.Token, st.LeaderID, st.Revision}}
 		}()
 	}
